@@ -158,7 +158,15 @@ def eval_cases(dirpath, shard, timeout=1800):
         elif m.group(2).startswith("VMismatch"):
             res.append((i, {"v": "mismatch", "step": int(m.group(3)), "what": m.group(4)}))
         else:
-            res.append((i, {"v": "violation", "step": int(m.group(5)), "kind": m.group(6)}))
+            # "kind" or "kind@step;kind@step;..." (first violation per property)
+            kinds = []
+            for part in m.group(6).split(";"):
+                if "@" in part:
+                    k, st = part.rsplit("@", 1)
+                    kinds.append((k, int(st)))
+                else:
+                    kinds.append((part, int(m.group(5))))
+            res.append((i, {"v": "violation", "step": kinds[0][1], "kind": kinds[0][0], "kinds": kinds}))
     err = None
     if rc:
         err = "coqc failed on %s/%s.v:\n%s" % (dirpath, shard, out[-3000:])
@@ -261,8 +269,13 @@ def same_failure(v, ref):
     if v["v"] != ref["v"]:
         return False
     if v["v"] == "violation":
-        return v["kind"] == ref["kind"]
+        return ref["kind"] in [k for (k, _) in v.get("kinds", [(v["kind"], 0)])]
     return True
+
+
+def expand_violation(v):
+    """One entry per (kind, step) of a multi-kind violation verdict."""
+    return [dict(v, kind=k, step=st) for (k, st) in v.get("kinds", [(v["kind"], v["step"])])]
 
 
 def minimise(binpath, history, ref, tag, budget_s=120):
@@ -507,11 +520,12 @@ def main(argv):
                 "outcome_histogram": meta["outcome_histogram"], "extra_max": meta["extra_max"], "rule": meta["rule"],
                 "skipped": meta.get("skipped", 0)})
             kinds = cfg.get("violation_kinds")  # None = every kind belongs to this property
-            for v in verdicts:
-                if v["v"] == "violation":
-                    if kinds is not None and not any(v["kind"].startswith(k) for k in kinds):
-                        continue
-                    violations.append(dict(v, harness=h["cmd"], bin=binpath))
+            for v0 in verdicts:
+                if v0["v"] == "violation":
+                    for v in expand_violation(v0):
+                        if kinds is not None and not any(v["kind"].startswith(k) for k in kinds):
+                            continue
+                        violations.append(dict(v, harness=h["cmd"], bin=binpath))
                 elif v["v"] == "mismatch":
                     problems.append(("mismatch", "model and implementation disagree (harness %s, step %d, %s)" % (
                         h["cmd"], v["step"], v["what"]), dict(v, harness=h["cmd"], bin=binpath)))
@@ -550,10 +564,15 @@ def main(argv):
                 continue
             verdicts, err = replay_histories(v["bin"], cands, "%s_%s_ext" % (pid, v["harness"]))
             hit = None
-            for w in verdicts or []:
-                if w["v"] == "violation" and (kinds is None or any(w["kind"].startswith(k) for k in kinds)) \
-                        and not known_match(pid, w["kind"], known):
-                    hit = w
+            for w0 in verdicts or []:
+                if w0["v"] != "violation":
+                    continue
+                for w in expand_violation(w0):
+                    if (kinds is None or any(w["kind"].startswith(k) for k in kinds)) \
+                            and not known_match(pid, w["kind"], known):
+                        hit = w
+                        break
+                if hit:
                     break
             if hit:
                 small = minimise(v["bin"], hit["history"], hit, "%s_%s" % (pid, v["harness"]))
